@@ -13,6 +13,7 @@ import (
 	"os"
 	"os/exec"
 	"path/filepath"
+	"regexp"
 	"strings"
 	"time"
 
@@ -22,6 +23,8 @@ import (
 	"github.com/mattn/anko/parser"
 	"github.com/mattn/anko/vm"
 )
+
+var addrRE = regexp.MustCompile(`0x[0-9a-f]{5,}`)
 
 type Scenario struct {
 	ID       string   `json:"id"`
@@ -182,9 +185,11 @@ func main() {
 				o.Lib = "timeout"
 			}
 		}
-		o.PrefixOK = strings.HasPrefix(o.Stdout, o.LibStdout)
+		// a value printed as a Go address (a function, a channel, a pointer) differs between the two processes by construction: addresses are made equal before comparing
+		cmpOut, cmpLib := addrRE.ReplaceAllString(o.Stdout, "0xADDR"), addrRE.ReplaceAllString(o.LibStdout, "0xADDR")
+		o.PrefixOK = strings.HasPrefix(cmpOut, cmpLib)
 		if o.PrefixOK {
-			rest := o.Stdout[len(o.LibStdout):]
+			rest := cmpOut[len(cmpLib):]
 			o.ExtraLines = strings.Count(rest, "\n")
 			if rest != "" && !strings.HasSuffix(rest, "\n") {
 				o.ExtraLines += 100 // not a LINE: the diagnostic must be terminated
